@@ -24,6 +24,8 @@ pub enum ValClass {
     UnitFloat,
     /// random walk with float steps
     Walk,
+    /// one non-dyadic float repeated (zero spread, inexact power sums)
+    FloatConst,
 }
 
 pub const EXACT_CLASSES: [ValClass; 9] = [
@@ -50,10 +52,11 @@ pub const INT_CLASSES: [ValClass; 8] = [
     ValClass::Alternating,
 ];
 
-pub const FLOAT_CLASSES: [ValClass; 4] =
-    [ValClass::LargeOffset, ValClass::Uniform, ValClass::UnitFloat, ValClass::Walk];
+pub const FLOAT_CLASSES: [ValClass; 5] =
+    [ValClass::LargeOffset, ValClass::Uniform, ValClass::UnitFloat, ValClass::Walk, ValClass::FloatConst];
 
-pub const ALL_CLASSES: [ValClass; 13] = [
+pub const ALL_CLASSES: [ValClass; 14] = [
+    ValClass::FloatConst,
     ValClass::Const,
     ValClass::Alphabet3,
     ValClass::SmallInt,
@@ -160,6 +163,10 @@ pub fn values(rng: &mut Rng, class: ValClass, len: usize) -> Vec<f64> {
             for _ in 0..len {
                 v.push(rng.uniform(-1.0, 1.0));
             }
+        },
+        ValClass::FloatConst => {
+            let c = rng.uniform(-100.0, 100.0);
+            v.resize(len, c);
         },
         ValClass::Walk => {
             let mut cur = rng.uniform(-10.0, 10.0);
